@@ -543,8 +543,33 @@ def gen_c22(seed, size="quick"):
     for i in range(nrules):
         n = p.fresh("ai")
         c = p.fresh("ac")
-        shape = r.randrange(7)
+        shape = r.randrange(10)
         rep = r.choice(["", "btree", "brie"])
+        if shape in (7, 8, 9):
+            # 7: two counters in one head; 8: two rules for one counter relation; 9: the counter inside an arithmetic expression
+            if shape == 7:
+                p.decl(n, [("x", "number"), ("id", "number"), ("id2", "number")], rep)
+                p.rule("%s(x,autoinc(),autoinc()) :- n1(x)." % n)
+                p.decl(c, [("x", "number")])
+                p.rule("%s(x) :- n1(x)." % c)
+                p.meta["autoinc"].append({"rel": n, "idcol": 1, "idcols": [1, 2], "sibling": c})
+            elif shape == 8:
+                p.decl(n, [("x", "number"), ("y", "number"), ("id", "number")], rep)
+                p.rule("%s(x,y,autoinc()) :- e1(x,y), x < y." % n)
+                p.rule("%s(y,x,autoinc()) :- e1(x,y), x < y." % n)
+                p.rule("%s(x,y,autoinc()) :- e1(x,y), x > y, n1(x)." % n)
+                p.decl(c, [("t", "number"), ("x", "number"), ("y", "number")])
+                p.rule("%s(1,x,y) :- e1(x,y), x < y." % c)
+                p.rule("%s(2,x,y) :- e1(x,y), x < y." % c)
+                p.rule("%s(3,x,y) :- e1(x,y), x > y, n1(x)." % c)
+                p.meta["autoinc"].append({"rel": n, "idcol": 2, "sibling": c})
+            else:
+                p.decl(n, [("x", "number"), ("id", "number")], rep)
+                p.rule("%s(x,autoinc()*3+1) :- e1(x,_)." % n)  # one id per instantiation of the body (x is not a key)
+                p.decl(c, [("x", "number"), ("y", "number")])
+                p.rule("%s(x,y) :- e1(x,y)." % c)
+                p.meta["autoinc"].append({"rel": n, "idcol": 1, "sibling": c, "mul": 3, "add": 1})
+            continue
         if shape == 0:
             body = "e1(x,y), x != y"
             head_cols = [("x", "number"), ("y", "number"), ("id", "number")]
